@@ -77,3 +77,17 @@ def register(check, TIERB_NOTE):
           "its hidden hand-offs. Preemption inside un-instrumented dependencies is not explored. If the code under test starts using synchronisation other than "
           "sync.Mutex/RWMutex the check falls back to leaving library synchronisation visible (less sensitive, never unsound).",
           "deterministic simulation: seeded cooperative scheduler over real goroutines, race detector with hidden scheduler/library synchronisation, solo-vs-interleaved result comparison, fresh-process ddmin over tasks/ops/preemptions")
+    check("C25", "exploration",
+          "The real generator and proto_generator binaries, built from an instrumented copy of the working tree (ygen, gogen, protogen, ypathgen, genutil, "
+          "ygot, util and a vendored goyang), are run - one fresh OS process per generation - on (schema set, tool, flag set) combinations drawn from the "
+          "repository's YANG corpus, the harness's OpenConfig-style workload schema and a seeded random YANG module generator (clashing enum / identity / "
+          "typedef names, unions of enumerations, multi-key and ordered lists, groupings used several times). The schedule of a run is the order in which "
+          "every map-iteration site yields its keys: canonical (reference), all sites reversed, seeded permutations, the runtime's own order twice, and every "
+          "site that sees two or more keys reversed alone (quick: a sample of 10 per combination; thorough: all of them, i.e. an exhaustive single-site "
+          "sweep). Oracle: all output files byte-identical to the reference. A violation is delta-debugged to the smallest set of `range` statements whose "
+          "order matters.",
+          "DESIGN.md §5 (C25)",
+          "Sampling of permutations and of the flag lattice; the only sources of nondeterminism in these packages are map iteration order and process state "
+          "(no goroutines, no clock), both of which the simulator controls. Trusted: the instrumenter's rewrite (every order it produces is one the Go "
+          "specification allows). Sites that never see two keys on the corpus are listed in the evidence as a coverage gap.",
+          "deterministic simulation: map-iteration-order schedules over the real generator processes (seeded permutations, reversal, exhaustive single-site sweep), byte-equality oracle, ddmin over iteration sites")
